@@ -3,8 +3,9 @@
 cd "$(dirname "$0")" || exit 2
 OUT=/var/tmp/verif-apalache-sf-$$
 ok=0
+mkdir -p $OUT; export TMPDIR=$OUT
 run() { timeout -s KILL 900 apalache-mc check --init=Init --inv=$1 --length=0 --out-dir=$OUT SmoothFnAll.tla 2>&1 | grep -q "EXITCODE: OK"; }
 run All && echo "APALACHE-OK OneSided, Quarter, OutsideEqual, Symmetric, MaxMirrors, Translate for all integers x, y and widths e >= 1" || { echo "APALACHE-FAIL All"; ok=1; }
 run Eighth && { echo "APALACHE-FAIL negative control Eighth was not refuted"; ok=1; } || echo "APALACHE-OK negative control (an eighth of the width is not a bound) refuted"
-rm -rf $OUT
+rm -rf $OUT; rmdir tmp 2>/dev/null
 exit $ok
